@@ -251,6 +251,8 @@ def run_check(prop, tier, module, replay=None):
     try:
         try:
             module.run(ctx)
+            from rules import reread
+            reread.thorough(ctx, prop)
         except AnalysisBroken as e:
             broken.append(str(e))
         except Exception as e:      # an engine bug is analysis-broken, never a violation
